@@ -145,7 +145,7 @@ def add_dilute(g, rng, keep=0.3, named=0.4):
         return
     v, s = rng.choice(cands)
     c = g.impl.env[v]
-    sid = g.impl.byname[s.name]
+    sid = dsl.sid_of(g.impl, s)
     solvent = g.sub(kind=('Liquid', 'Liquid', 'Solid'), notin=(sid,))
     if solvent is None:
         return
